@@ -120,6 +120,29 @@ def scenarios(ctx: Ctx):
         yield c
     for _ in range(500 if ctx.quick() else 8000):
         yield adversarial(ctx.rng)
+    # sequences: two functions that share kind / name / namespace but differ in apiVersion (or share kind
+    # and differ in name / namespace), reconciled one after the other in the same process: the second
+    # must not inherit anything from the first
+    for _ in range(60 if ctx.quick() else 800):
+        a = adversarial(ctx.rng)
+        a["cfg"]["plural"] = "widgets"
+        a["lookup"] = None
+        yield a
+        b = adversarial(ctx.rng)
+        b["cfg"].update({"kind": a["cfg"]["kind"], "plural": "widgets", "namespaced": a["cfg"]["namespaced"]})
+        b["lookup"] = None
+        how = ctx.rng.choice(["version", "version", "name", "ns"])
+        b["name"] = list(a["name"])
+        if how == "version":
+            b["cfg"]["version"] = "example.dev/v2"
+        elif how == "name":
+            b["name"][1] = "another"
+        elif b["name"][2] is not None:
+            b["name"][2] = "ns-other"
+        b["live"] = "derive"
+        b["live_mode"] = "drift"
+        b["pair"] = how
+        yield b
     for _ in range(100 if ctx.quick() else 1500):
         yield m.rand_scenario(ctx.rng)
 
